@@ -21,6 +21,7 @@ Static clauses decided (necessary conditions of C15):
          Entity._delete_ that deletes the dependents of a Set attribute iterates the SetInstance wrapper obtained from
          attr.__get__(obj) (iteration loads the collection) and never the raw cached SetData (obj._vals_[attr]); dependents
          that were not loaded yet would otherwise be skipped together with their own refuse/cascade rules.
+ FKON    every SQLite connection switches foreign-key enforcement on when it is opened (condition: library version only).
  FKSTATE a ddl session switches the database's foreign-key enforcement off and the provider's release() switches it back on iff the
          state it saved was "on".  A session may begin several transactions (commit() in the middle): the saved state must be
          recorded once per session -- the store `cache.saved_fk_state = bool(fk)` in set_transaction_mode is guarded by a test of
@@ -199,9 +200,24 @@ def run(ctx):
     ok = ok and 'bulk' in qd.params and dflt and isinstance(dflt[-1], ast.Constant) and not dflt[-1].value
     ctx.ob('C15-BULK.default-delete-goes-through-cascade-rules', qd, nb[0].stmt if nb else qd.node, ok,
            '' if ok else 'Query.delete() without bulk=True does not delete object by object through _delete_()')
+    # ---------------------------------------------------------------- FKON
+    # "a committed database never contains a reference to a deleted row, including rows deleted by bulk query deletes": for bulk deletes that is the
+    # DATABASE's job, so every SQLite connection pony opens switches foreign-key enforcement on.  In SQLitePool._connect the PRAGMA is executed on
+    # every path that created a connection; the only condition allowed is the library version (a module-level fact) -- never per-pool /
+    # per-thread state (the pool object is thread-local: an attribute set on it by the binding thread does not exist in other threads)
+    pcn = repo.fn('pony.orm.dbproviders.sqlite', 'SQLitePool._connect'); g = cg.cfg(pcn)
+    prag = [x for x in g.nodes if x.ast is not None and x.kind == 'stmt' and any(isinstance(c_, ast.Constant) and isinstance(c_.value, str) and 'foreign_keys = true' in c_.value.lower() for c_ in x.walk())]
+    ctx.need(bool(prag), 'C15-FKON: PRAGMA foreign_keys = true not found in SQLitePool._connect')
+    conn = [x for x in g.nodes if x.kind == 'stmt' and isinstance(x.ast, ast.Assign) and 'sqlite.connect(' in norm(x.ast.value)]
+    vtests = {t.id for t in g.nodes if t.kind == 'test' and 'sqlite_version' in norm(t.ast) and not any(isinstance(a, ast.Name) and a.id == pcn.recv for a in t.walk())}
+    ok = bool(conn) and all(g.must_pass_after(cn_, prag, exits=[g.exit], edge_ok=lambda x, y, lab: not (x in vtests and lab == 'F')) for cn_ in conn)
+    ctx.ob('C15-FKON.every-sqlite-connection-enforces-foreign-keys', pcn, prag[0].ast, ok,
+           '' if ok else 'SQLitePool._connect can return a new connection without `PRAGMA foreign_keys = true` (the pragma is guarded by something other than the sqlite library '
+           'version, e.g. per-pool state that other threads do not see): bulk deletes through such a connection leave dangling references', node=prag[0].ast)
 
 
 MUTANTS = [
+    dict(id='C15-fo1', file='pony/orm/dbproviders/sqlite.py', fn='SQLitePool._connect', old="        if sqlite.sqlite_version_info >= (3, 6, 19):", new="        if getattr(pool, 'fk_support', False):", expect='C15-FKON'),
     dict(id='C15-f1', file='pony/orm/dbproviders/sqlite.py', fn='SQLiteProvider.set_transaction_mode', old="                if cache.saved_fk_state is None:  # keep the state saved by an earlier transaction of this session\n                    cache.saved_fk_state = bool(fk)", new="                cache.saved_fk_state = bool(fk)", expect='C15-FKSTATE'),
     dict(id='C15-l1', file='pony/orm/core.py', fn='Entity._delete_', old="for robj in set_wrapper: robj._delete_(undo_funcs)", new="for robj in list(obj._vals_[attr]): robj._delete_(undo_funcs)", expect='C15-LOAD'),
     dict(id='C15-m1', file='pony/orm/core.py', fn='Entity._delete_', old="                        elif not attr.reverse.is_required: attr.__set__(obj, (), undo_funcs)", new="                        elif attr.reverse.is_required: attr.__set__(obj, (), undo_funcs)", expect='C15-TABLE'),
